@@ -135,7 +135,7 @@ static void CMap__ctor_move(struct CMap *m, struct CMap *o) { *m = *o; o->len = 
 static void CMap__dtor(struct CMap *m) { }
 static void SPtr__ctor_move(struct SPtr *p, struct SPtr *o) { p->p = o->p; o->p = 0; }
 static void SPtr__dtor(struct SPtr *p) { __CPROVER_assert(p->p == 0, "MODEL-LIMIT destruction of a node that owns a subject is not modelled"); }
-static void SPtr__reset(struct SPtr *p, struct Subj0 *s) { __CPROVER_assert(p->p == 0, "MODEL-LIMIT reset of a unique_ptr that owns a subject is not modelled"); p->p = s; }
+static void SPtr__reset(struct SPtr *p, struct Subj0 *s) { __CPROVER_assert(p->p == 0, "C06 a subject that exists (with its subscriptions) is never replaced"); p->p = s; }
 #ifdef MAP_TRACKED
 /* std::pair<const std::string, Node>(name, Node&&): the node is move-constructed into the pair (real lowered Node move
  * constructor), which lives in the scratch object until insert() takes it */
